@@ -11,6 +11,9 @@
    Definitions only. *)
 From SV Require Import Base.Bytes.
 
+(* linear-time list reversal (List.rev is quadratic once extracted) *)
+Definition frev {A} (l : list A) : list A := rev_append l [].
+
 (* line splitter as a streaming automaton: [cur] = current line reversed, [after_cr] = the
    previous byte was a CR that ended a line (a LF that follows is part of the same terminator) *)
 Fixpoint sse_lines_aux (cur : bytes) (after_cr : bool) (s : bytes) : list bytes :=
@@ -19,8 +22,8 @@ Fixpoint sse_lines_aux (cur : bytes) (after_cr : bool) (s : bytes) : list bytes 
   | c :: t =>
       if c =? 10 then
         if after_cr then sse_lines_aux cur false t
-        else rev cur :: sse_lines_aux [] false t
-      else if c =? 13 then rev cur :: sse_lines_aux [] true t
+        else frev cur :: sse_lines_aux [] false t
+      else if c =? 13 then frev cur :: sse_lines_aux [] true t
       else sse_lines_aux (c :: cur) false t
   end.
 Definition sse_lines (s : bytes) : list bytes := sse_lines_aux [] false s.
@@ -61,7 +64,7 @@ Record sse_state := mk_sse {
 Definition sse_init : sse_state := mk_sse [] [] [] [].
 
 Definition strip_last_lf (d : bytes) : bytes :=
-  match rev d with 10 :: r => rev r | _ => d end.
+  match frev d with 10 :: r => frev r | _ => d end.
 
 Definition sse_step (st : sse_state) (l : bytes) : sse_state :=
   match classify_line l with
